@@ -80,8 +80,9 @@ struct Ora {
   bool valid = false;     // both integrations succeeded and agree
   ld x = 0, y = 0;        // metres, including a and k0
   ld gamma = 0, k = 0;    // degrees, scale including k0
-  ld disagree = 0;        // |run1 - run2| in metres on the ground
-  int path = 0;
+  ld absS = 0;            // |sin phi| (complex latitude) at the point: sensitivity of gamma [rad] and log k to a displacement ds/(nu cos phi)
+  bool yfree = false;     // far-side equator: y = +-(2Q - ...) both describe the point; |y| and |gamma| are compared
+  bool via_north = false; // reference obtained on the via-north path (extended domain south of the equator, or the equator beyond the branch point)
 };
 struct Geo {              // ellipsoid quantities in long double
   ld a, f, e2, k0, Q;     // Q = quarter meridian / a
@@ -96,34 +97,50 @@ struct Geo {              // ellipsoid quantities in long double
 };
 static const ld DEGL = 3.141592653589793238462643383279502884L / 180;
 
-// raw oracle for lat in (-90,90), dlon >= 0, k0 = 1, a = 1; two independent settings must agree
+// raw oracle for lat in (-90,90), dlon >= 0; two independent settings must agree to 5 % of the position tolerance
 static Ora oracle_raw(const Geo& G, double lat, double dlon, tm_ode::Path path, ld postol_ground) {
-  Ora o; o.path = path;
+  Ora o; o.via_north = path == tm_ode::VIA_NORTH;
+  if (G.e2 == 0) {                       // sphere: closed form (the ODE is compared with it in oracle/selftest_proj.cpp)
+    if (lat == 0 && dlon == 90) return o;
+    auto r = tm_ode::sphere<ld>(lat, dlon);
+    o.valid = true; o.x = r.eta * G.a * G.k0; o.y = r.xi * G.a * G.k0; o.gamma = r.gamma_deg; o.k = r.k * G.k0; o.absS = r.absS;
+    return o;
+  }
   tm_ode::Options o1, o2; o1.order = 28; o1.tol = 1e-20; o2.order = 20; o2.tol = 1e-19;
   auto r1 = tm_ode::forward<ld>(G.e2, lat, dlon, o1, path, 30);
   if (!r1.ok) return o;
   auto r2 = tm_ode::forward<ld>(G.e2, lat, dlon, o2, path, 50);
   if (!r2.ok) return o;
   ld d = hypotl(r1.xi - r2.xi, r1.eta - r2.eta) * G.a / r1.k;     // ground distance between the two runs
-  o.disagree = d;
   ld dg = fabsl(r1.gamma_deg - r2.gamma_deg); if (dg > 180) dg = fabsl(dg - 360);
-  if (!(d <= 0.05L * postol_ground) || !(r1.inv < 1e-15L) || !(dg < 1e-15L * (1 + r1.k)) || !(fabsl(r1.k - r2.k) <= 1e-16L * r1.k * (1 + r1.k))) return o;
+  ld sens = 1 + r1.absS;
+  if (!(d <= 0.05L * postol_ground) || !(r1.inv < 1e-15L) || !(dg * DEGL < 2e-15L * sens) || !(fabsl(r1.k - r2.k) <= 2e-15L * r1.k * sens)) return o;
   o.valid = true;
-  o.x = r1.eta * G.a * G.k0; o.y = r1.xi * G.a * G.k0; o.gamma = r1.gamma_deg; o.k = r1.k * G.k0;
+  o.x = r1.eta * G.a * G.k0; o.y = r1.xi * G.a * G.k0; o.gamma = r1.gamma_deg; o.k = r1.k * G.k0; o.absS = r1.absS;
   return o;
 }
-// oracle with the parities applied (standard convention): y odd in lat, x odd in dlon, gamma odd in both, k even
-static Ora oracle_std(const Geo& G, double lat, double dlon, ld postol_ground) {
-  double al = std::fabs(lat), ad = std::fabs(dlon);
+// Expected result for (lat, dlon) under the standard convention (extendp = false) or the extended one.
+// Standard: parities applied to the first-quadrant value; on the equator beyond the branch point the value is the limit from the
+// north (via-north path); on the far side of the equator (|dlon| > 90) the reflection xi -> 2Q - xi about the meridian dlon = 90 is used.
+static Ora expect(const Geo& G, double lat, double dlon, bool extendp, ld vt) {
+  const double al = std::fabs(lat), ad = std::fabs(dlon);
+  const int sl = std::signbit(lat) ? -1 : 1, sd = std::signbit(dlon) ? -1 : 1;
+  const bool oblate = G.e2 > 0;
+  if (extendp) {
+    if (sl < 0 || (al == 0 && oblate && ad >= (double)G.lonb)) return oracle_raw(G, lat, ad, tm_ode::VIA_NORTH, vt);     // lat <= 0, dlon in [lonb, 90]
+    return oracle_raw(G, al, ad, tm_ode::STANDARD, vt);
+  }
   Ora o;
-  if (G.e2 == 0) {                       // sphere: closed form (the ODE is compared with it in selftest_proj.cpp)
-    auto r = tm_ode::sphere<ld>(al, ad);
-    o.valid = !(al == 0 && ad == 90);
-    o.x = r.eta * G.a * G.k0; o.y = r.xi * G.a * G.k0; o.gamma = r.gamma_deg; o.k = r.k * G.k0;
-  } else
-    o = oracle_raw(G, al, ad, tm_ode::STANDARD, postol_ground);
+  if (al == 0 && ad > 90) {
+    double inner = 180 - ad;
+    o = (oblate && inner >= (double)G.lonb) ? oracle_raw(G, 0.0, inner, tm_ode::VIA_NORTH, vt) : oracle_raw(G, 0.0, inner, tm_ode::STANDARD, vt);
+    if (!o.valid) return o;
+    o.y = -(2 * G.Q * G.a * G.k0 - o.y); o.x *= sd; o.gamma = -(180 - o.gamma) * sd; o.yfree = true;
+    return o;
+  }
+  if (al == 0 && oblate && ad >= (double)G.lonb) o = oracle_raw(G, 0.0, ad, tm_ode::VIA_NORTH, vt);
+  else o = oracle_raw(G, al, ad, tm_ode::STANDARD, vt);
   if (!o.valid) return o;
-  int sl = std::signbit(lat) ? -1 : 1, sd = std::signbit(dlon) ? -1 : 1;
   o.y *= sl; o.x *= sd; o.gamma *= sl * sd;
   return o;
 }
@@ -137,8 +154,6 @@ static double eff_dlon(double lon0, double lon) {
   d = remainderl(d, 360.0L);              // exact
   return (double)d;
 }
-
-struct Tol { ld pos, gam_floor, krel; };
 
 // ------------------------------------------------------------------ alphabets
 struct Val { double v; bool quick; };
